@@ -125,10 +125,11 @@ func (m *MessageStore) ProcessMessageQueueForDevicePK(ctx context.Context, devic
 			m.logger.Error("unable to process message, unmarshal of device pk failed", logutil.PrivateBinary("devicepk", devicePK))
 		} else if device.hasKnownChainKey = m.secretStore.IsChainKeyKnownForDevice(ctx, m.groupPublicKey, devicePublicKey); !device.hasKnownChainKey {
 			m.logger.Error("unable to process message, no secret found for device pk", logutil.PrivateBinary("devicepk", devicePK))
-		} else if next := device.queue.Next(); next != nil {
-			// let's try processing one message from the queue.
-			// if it succeeds, the whole queue should be added for processing.
-			m.messagesQueue.Add(next)
+		} else {
+			// the chain key is known now, every queued message gets its chance: trying only the
+			// oldest one would leave the others parked when that one cannot be opened
+			// (for ex: it was sealed before the chain key was shared)
+			m.processDeviceMessagesInQueue(device)
 		}
 	}
 	m.muDeviceCaches.Unlock()
